@@ -541,11 +541,17 @@ def run(ctx):
     if not eb_:
         ctx.fail_closed("SCAN", "gamedata::GameData::exists not found")
     else:
-        rets = [p_.env.local(0) for p_ in Explorer(eb_).explore() if p_.end == "return"]
+        paths_ = [p_ for p_ in Explorer(eb_).explore() if p_.end == "return"]
+        rets = [p_.env.local(0) for p_ in paths_]
         bad_r = []
-        for r_ in rets:
+
+        def _from_lookup(e_):
+            return any(isinstance(x, tuple) and x and x[0] == "call" and str(x[1]).split("::")[-1] in ("find_entry", "find_offset", "exists") for x in walk(e_))
+
+        for p_, r_ in zip(paths_, rets):
             if is_const(r_):
-                if r_[1] != 0:
+                # a constant true is fine on a path that tested the lookup's result (`matches!(find_entry(..), Some(_))`)
+                if r_[1] != 0 and not any(_from_lookup(c_) for c_ in p_.conds):
                     bad_r.append(show(r_))
             elif not any(isinstance(x, tuple) and x and x[0] == "call" and str(x[1]).split("::")[-1] in ("find_entry", "find_offset", "exists") for x in walk(r_)):
                 bad_r.append(show(r_)[:80])
